@@ -661,6 +661,141 @@ pub async fn pair_fifo(kind: &str, seed: u64) -> Vec<(String, String)> {
     problems
 }
 
+/// The library's TLS streams end to end: the client transport's TLS stream against the TLS acceptor's stream over an
+/// in-process pipe that is much smaller than the messages. Ping-pong: one side writes a message and flushes, then waits
+/// for the other side's answer - whatever a flush leaves behind in a buffer is never delivered, and the exchange stalls.
+pub async fn pair_tls(seed: u64) -> Vec<(String, String)> {
+    use crate::e2e::{client_tls, server_tls};
+    use hyperdriver::client::conn::transport::duplex::DuplexTransport;
+    use hyperdriver::client::conn::transport::TransportExt as _;
+    use hyperdriver::server::conn::AcceptExt as _;
+    use hyperdriver::stream::tls::TlsHandshakeStream as _;
+    use tokio::io::{AsyncReadExt, AsyncWriteExt};
+    let mut rng = StdRng::seed_from_u64(seed);
+    let mut problems = Vec::new();
+    // (tokio-rustls over a tokio pipe of 64 bytes stalls on its own - probed with the reference below - so pipes start at 300)
+    let buf = [300usize, 512, 4096, 65_536][rng.gen_range(0..4)];
+    let lazy_handshake = rng.gen_bool(0.5);
+    if std::env::var("HDV_DEBUG").is_ok() { eprintln!("pipe {buf} lazy {lazy_handshake}"); }
+    let (duplex_client, incoming) = hyperdriver::stream::duplex::pair();
+    let acceptor = hyperdriver::server::conn::Acceptor::from(incoming).with_tls(std::sync::Arc::new(server_tls("good", &[])));
+    let rounds: Vec<(usize, usize)> = (0..rng.gen_range(1..5)).map(|_| (rng.gen_range(1..60_000usize), rng.gen_range(1..60_000usize))).collect();
+    let msg = |round: usize, dir: u8, n: usize| -> Vec<u8> { (0..n).map(|i| (i as u8).wrapping_mul(31).wrapping_add(dir).wrapping_add(round as u8)).collect() };
+    let r1 = rounds.clone();
+    let client = async move {
+        let mut transport = DuplexTransport::new(buf, duplex_client).with_tls(std::sync::Arc::new(client_tls(&[])));
+        let mut s = transport.connect_with("https://a.test").await.map_err(|e| format!("client connect: {e}"))?;
+        if std::env::var("HDV_DEBUG").is_ok() { eprintln!("client: connected"); }
+        if !lazy_handshake {
+            s.finish_handshake().await.map_err(|e| format!("client handshake: {e}"))?;
+        }
+        for (k, (up, down)) in r1.iter().enumerate() {
+            let m = msg(k, 1, *up);
+            // pieces of assorted sizes, one flush at the end of the message
+            let mut i = 0;
+            while i < m.len() {
+                let n = [1usize, 100, 5000, 20_000][(k + i) % 4].min(m.len() - i);
+                s.write_all(&m[i..i + n]).await.map_err(|e| format!("client write: {e}"))?;
+                i += n;
+            }
+            s.flush().await.map_err(|e| format!("client flush: {e}"))?;
+            if std::env::var("HDV_DEBUG").is_ok() { eprintln!("client: round {k} wrote+flushed {up}"); }
+            let mut got = vec![0u8; *down];
+            s.read_exact(&mut got).await.map_err(|e| format!("client read: {e}"))?;
+            if got != msg(k, 2, *down) {
+                return Err(format!("round {k}: the client received other bytes than the server sent ({down} bytes)"));
+            }
+        }
+        s.shutdown().await.map_err(|e| format!("client shutdown: {e}"))?;
+        let mut rest = Vec::new();
+        let _ = s.read_to_end(&mut rest).await;
+        if !rest.is_empty() {
+            return Err(format!("the client received {} bytes that were never sent", rest.len()));
+        }
+        Ok::<(), String>(())
+    };
+    let r2 = rounds.clone();
+    let server = async move {
+        let mut c = acceptor.accept().await.map_err(|e| format!("accept: {e}"))?;
+        if !lazy_handshake {
+            c.finish_handshake().await.map_err(|e| format!("server handshake: {e}"))?;
+        }
+        if std::env::var("HDV_DEBUG").is_ok() { eprintln!("server: accepted (lazy={lazy_handshake})"); }
+        for (k, (up, down)) in r2.iter().enumerate() {
+            let mut got = vec![0u8; *up];
+            c.read_exact(&mut got).await.map_err(|e| format!("server read: {e}"))?;
+            if got != msg(k, 1, *up) {
+                return Err(format!("round {k}: the server received other bytes than the client sent ({up} bytes)"));
+            }
+            c.write_all(&msg(k, 2, *down)).await.map_err(|e| format!("server write: {e}"))?;
+            c.flush().await.map_err(|e| format!("server flush: {e}"))?;
+            if std::env::var("HDV_DEBUG").is_ok() { eprintln!("server: round {k} got {up}, wrote+flushed {down}"); }
+        }
+        let mut rest = Vec::new();
+        c.read_to_end(&mut rest).await.map_err(|e| format!("server read to end: {e}"))?;
+        if !rest.is_empty() {
+            return Err(format!("the server received {} bytes that were never sent", rest.len()));
+        }
+        let _ = c.shutdown().await;
+        Ok::<(), String>(())
+    };
+    match tokio::time::timeout(std::time::Duration::from_secs(60), async { tokio::join!(client, server) }).await {
+        Err(_) => {
+            let reference = pair_tls_reference(buf, rounds.clone()).await;
+            if std::env::var("HDV_DEBUG").is_ok() {
+                eprintln!("reference (tokio-rustls over tokio::io::duplex({buf})): {reference:?}");
+            }
+            match reference {
+                Ok(()) => problems.push(("pair:tls:stalled".to_string(), format!("tls pair seed {seed}: pipe {buf} B, messages {rounds:?}: the write+flush / read ping-pong did not finish (plain tokio-rustls over a tokio pipe of the same size does)"))),
+                // not hyperdriver's doing: the same exchange without hyperdriver does not finish either
+                Err(_) => problems.push(("SKIP:reference-stalls-too".to_string(), String::new())),
+            }
+        }
+        Ok((a, b)) => {
+            for r in [a, b] {
+                if let Err(e) = r {
+                    problems.push(("pair:tls:exchange-failed".to_string(), format!("tls pair seed {seed}: pipe {buf} B, messages {rounds:?}: {e}")));
+                }
+            }
+        }
+    }
+    problems
+}
+
+/// the same ping-pong with nothing of hyperdriver in it: tokio-rustls on both ends of a tokio in-memory pipe
+pub async fn pair_tls_reference(buf: usize, rounds: Vec<(usize, usize)>) -> Result<(), String> {
+    use crate::e2e::{client_tls, server_tls};
+    use tokio::io::{AsyncReadExt, AsyncWriteExt};
+    let (a, b) = tokio::io::duplex(buf);
+    let msg = |round: usize, dir: u8, n: usize| -> Vec<u8> { (0..n).map(|i| (i as u8).wrapping_mul(31).wrapping_add(dir).wrapping_add(round as u8)).collect() };
+    let r1 = rounds.clone();
+    let client = async move {
+        let name = rustls::pki_types::ServerName::try_from("a.test").unwrap();
+        let mut s = tokio_rustls::TlsConnector::from(std::sync::Arc::new(client_tls(&[]))).connect(name, a).await.map_err(|e| format!("client: {e}"))?;
+        for (k, (up, down)) in r1.iter().enumerate() {
+            s.write_all(&msg(k, 1, *up)).await.map_err(|e| format!("client write: {e}"))?;
+            s.flush().await.map_err(|e| format!("client flush: {e}"))?;
+            let mut got = vec![0u8; *down];
+            s.read_exact(&mut got).await.map_err(|e| format!("client read: {e}"))?;
+        }
+        Ok::<(), String>(())
+    };
+    let server = async move {
+        let mut c = tokio_rustls::TlsAcceptor::from(std::sync::Arc::new(server_tls("good", &[]))).accept(b).await.map_err(|e| format!("server: {e}"))?;
+        for (k, (up, down)) in rounds.iter().enumerate() {
+            let mut got = vec![0u8; *up];
+            c.read_exact(&mut got).await.map_err(|e| format!("server read: {e}"))?;
+            c.write_all(&msg(k, 2, *down)).await.map_err(|e| format!("server write: {e}"))?;
+            c.flush().await.map_err(|e| format!("server flush: {e}"))?;
+        }
+        Ok::<(), String>(())
+    };
+    match tokio::time::timeout(std::time::Duration::from_secs(30), async { tokio::join!(client, server) }).await {
+        Err(_) => Err("stalled".into()),
+        Ok((a, b)) => a.and(b),
+    }
+}
+
 /// one direction over a real pair, the writer using vectored writes whose slices are sized around the pipe capacity
 pub async fn pair_vectored(kind: &str, seed: u64) -> Vec<(String, String)> {
     use tokio::io::{AsyncReadExt, AsyncWriteExt};
@@ -766,6 +901,18 @@ pub fn run(args: &Args) -> Report {
     if let Some(path) = &args.replay {
         let v: Value = serde_json::from_str(&std::fs::read_to_string(path).unwrap()).unwrap();
         let r = &v["replay"];
+        if let Some(kind) = r["pair"].as_str() {
+            let rt = tokio::runtime::Builder::new_current_thread().enable_all().build().unwrap();
+            let seed = r["seed"].as_u64().unwrap_or(1);
+            let mut problems = if kind == "tls" { rt.block_on(pair_tls(seed)) } else { rt.block_on(pair_fifo(kind, seed)) };
+            problems.retain(|(s, _)| !s.starts_with("SKIP:"));
+            let p = rep.prop("C18", RULE);
+            p.eval(Some(1));
+            for (s, m) in problems {
+                p.violation(s, m, r.clone());
+            }
+            return rep;
+        }
         let (problems, _) = run_sequence(r["adapter"].as_str().unwrap_or("rewind"), r["seed"].as_u64().unwrap_or(1), r["ops"].as_u64().unwrap_or(100) as usize);
         let p = rep.prop("C18", RULE);
         p.eval(Some(1));
@@ -809,6 +956,21 @@ pub fn run(args: &Args) -> Report {
             let mut problems = rt.block_on(pair_fifo(kind, args.seed.wrapping_add(i)));
             for j in 0..4u64 {
                 problems.extend(rt.block_on(pair_vectored(kind, args.seed.wrapping_add(i * 4 + j))));
+            }
+            // the TLS streams of the client transport and of the TLS acceptor, end to end
+            let tls_seed = args.seed.wrapping_mul(77).wrapping_add(i);
+            let tls_problems = rt.block_on(pair_tls(tls_seed));
+            {
+                let p = r.prop("C18", RULE);
+                p.eval(Some(hash_of(&("pair", "tls", i))));
+                p.count("pairs_tls", 1);
+                for (s, m) in tls_problems {
+                    if s.starts_with("SKIP:") {
+                        p.count("pairs_tls_not_judged_reference_stalls_too", 1);
+                        continue;
+                    }
+                    p.violation(s, m, json!({"engine": "iolab", "pair": "tls", "seed": tls_seed}));
+                }
             }
             let p = r.prop("C18", RULE);
             p.eval(Some(hash_of(&("pair", kind, i))));
